@@ -6,6 +6,7 @@ import JediVerif.Driver.Judge2
 import JediVerif.Impl.Wnaf
 import JediVerif.Impl.Encode
 import JediVerif.Impl.Miller
+import JediVerif.Impl.FastMul
 
 namespace Jedi.Driver
 open Jedi.Impl
@@ -26,6 +27,9 @@ def parseAffOut {F : Type} (o : CurveOps F) (toks : List String) : Except String
 
 /-- generator of GT as the Spec computes it. -/
 def gtGen : Fq12 := ateSpec g1Gen g2Gen
+
+/-- raw Jacobian triple `x y z` in the harness wire format. -/
+def CurveOps.strJ {F : Type} (o : CurveOps F) (j : Jac F) : List String := o.strF j.x ++ o.strF j.y ++ o.strF j.z
 
 def lambdaG1 : Nat := glvLambda
 def qModR : Nat := q % r
@@ -51,12 +55,18 @@ def judgeMisc (op : String) (out : List String) : P Bool := do
   | "g1_endo" =>
     -- (x, y) ↦ (βx, y) must act as [λ] on the order-r subgroup (inputs are subgroup points)
     let a ← curveG1.rdJ; let _ ← next
-    curveG1.expectJ op (Pt.smulFast lambdaG1 (Pt.ofJac a)) out; pure true
+    curveG1.expectJ op (Pt.smulFast lambdaG1 (Pt.ofJac a)) out
+    -- the model of `G1::endomorphism` (Impl/FastMul.lean) must reproduce the raw Jacobian triple exactly
+    expectToks "g1_endo (model)" (curveG1.strJ (Impl.g1Endo a)) out
+    pure true
   | "g2_frob" =>
-    let a ← curveG2.rdJ; let k ← nextNat; let _ ← next
+    let a ← curveG2.rdJ; let k ← nextNat; let al ← next
     if k % 4 == 0 then curveG2.expectJ op (Pt.ofJac a) out
     else if k % 4 == 1 then curveG2.expectJ op (Pt.smulFast qModR (Pt.ofJac a)) out
     else pure ()
+    -- the model of `G2::frobenius_map` (Impl/FastMul.lean) must reproduce the raw Jacobian triple exactly; for the
+    -- unimplemented powers the destination is left untouched, which is observable when it is aliased to the source
+    if k % 4 < 2 || al == "a" then expectToks "g2_frob (model)" (curveG2.strJ (Impl.g2FrobInto a a k)) out
     pure true
   | "wnaf" =>
     let bits ← nextNat; let w ← nextNat; let k ← nextHex
